@@ -22,7 +22,7 @@ from .. import rx
 from ..core import AnalysisError
 from ..index import get_index
 from .c06 import CULTURES, DT, PyPattern, Wiring, _callee_name, _is_name, class_consts
-from .c08 import MiniEval, Undetermined
+from .c08 import MiniEval, Obj, Undetermined
 from .c08 import _Return as _ReturnSignal
 
 LEVEL = 'other'
@@ -273,6 +273,9 @@ def range_guard_cases(idx, cls, fn, num_name, sp_name, first_assign, consts):
     for i, st in enumerate(body):
         if isinstance(st, ast.Assign) and isinstance(st.targets[0], ast.Attribute) and st.targets[0].attr == 'timex':
             end = i
+    if end is None:
+        loc = assembly_locals(fn, cls, idx)      # the assembly is delegated to a helper: stop in front of that call
+        end = loc[3] if loc else None
     if end is None or end < start:
         raise AnalysisError('%s.%s: TIMEX assembly is not a top-level statement after the number' % (cls.name, fn.name))
     aborted = {}
@@ -595,11 +598,18 @@ def span_eval_slice(idx, cls, fn, end_name, begin_name, begin, end, consts):
             if isinstance(n, ast.Name) and isinstance(n.ctx, ast.Store):
                 assigned.add(n.id)
     env = {begin_name: begin, end_name: end, 'year': begin.year, 'month': begin.month, 'day': begin.day}
-    for st in stmts:
-        for n in ast.walk(st):
-            if isinstance(n, ast.Name) and isinstance(n.ctx, ast.Load) and n.id not in env and n.id not in assigned \
-                    and n.id not in ('datetime', 'timedelta', 'divmod', 'int', 'float', 'round', 'str', 'QueryProcessor', 'Constants', 'self'):
-                env[n.id] = '?'
+    # names the slice reads but does not bind: locals of the function defined earlier get the value of their last plain
+    # assignment when that is a constant expression, else a placeholder (pieces of the endpoints' own TIMEX); names that
+    # are not locals (module constants, classes) are left to the evaluator, which resolves them through the index
+    fn_locals = {a.arg for a in fn.args.args}
+    for n in ast.walk(fn):
+        if isinstance(n, ast.Name) and isinstance(n.ctx, ast.Store):
+            fn_locals.add(n.id)
+    pre = {}
+    for st in fn.body[:i0]:
+        t = st.targets[0] if isinstance(st, ast.Assign) and len(st.targets) == 1 else (st.target if isinstance(st, ast.AnnAssign) and st.value is not None else None)
+        if isinstance(t, ast.Name):
+            pre[t.id] = st.value
 
     def res(node):
         if isinstance(node, ast.Attribute) and isinstance(node.value, ast.Name):
@@ -610,6 +620,18 @@ def span_eval_slice(idx, cls, fn, end_name, begin_name, begin, end, consts):
         raise Undetermined('attribute %s' % ast.unparse(node)[:40])
 
     ev = MiniEval(idx, cls, res)
+    for st in stmts:
+        for n in ast.walk(st):
+            if isinstance(n, ast.Name) and isinstance(n.ctx, ast.Load) and n.id not in env and n.id not in assigned and n.id in fn_locals:
+                val = '?'
+                if n.id in pre:
+                    try:
+                        v = ev.expr(pre[n.id], {})
+                        if isinstance(v, (int, float)) and not isinstance(v, bool):
+                            val = v
+                    except Undetermined:
+                        pass
+                env[n.id] = val
     try:
         ev.block(stmts, env)
     except _ReturnSignal:
@@ -649,56 +671,92 @@ class P:
 '''
 
 
-def assembly_locals(fn):
-    """(spelling local, number local, index of the unit_map guard, index of the value assignment) of a TIMEX assembly"""
+def _has_assembly(fn):
+    tx = [n for n in ast.walk(fn) if isinstance(n, ast.Assign) and isinstance(n.targets[0], ast.Attribute)
+          and n.targets[0].attr == 'timex' and isinstance(n.value, ast.JoinedStr)
+          and any(isinstance(v, ast.Constant) and isinstance(v.value, str) and v.value.startswith('P') for v in n.value.values)]
+    fv = [n for n in ast.walk(fn) if isinstance(n, ast.Assign) and isinstance(n.targets[0], ast.Attribute) and n.targets[0].attr == 'future_value']
+    return (tx[0], fv[0]) if tx and fv else None
+
+
+def _number_name(fn, timex, value_stmt):
+    """the local (or parameter) of `fn` that is the N of P[T]N<U>: it appears in the TIMEX f-string, is not derived from the
+    unit, and scales the seconds value"""
+    defs = {}
+    for n in ast.walk(fn):
+        t = n.targets[0] if isinstance(n, ast.Assign) and len(n.targets) == 1 else (n.target if isinstance(n, ast.AnnAssign) and n.value is not None else None)
+        if isinstance(t, ast.Name):
+            defs.setdefault(t.id, []).append(n.value)
+    unitish = set()
+    for nm, vs in defs.items():
+        txts = [ast.unparse(v) for v in vs]
+        if any('unit_map' in t or 'is_less_than_day' in t for t in txts) or any(isinstance(v, ast.IfExp) for v in vs):
+            unitish.add(nm)
+    for nm, vs in defs.items():       # letter = unit[0]
+        if any(isinstance(v, ast.Subscript) and isinstance(v.value, ast.Name) and v.value.id in unitish for v in vs):
+            unitish.add(nm)
+    # parameters handed to is_less_than_day / subscripted for the letter are unit parameters
+    for c in ast.walk(fn):
+        if isinstance(c, ast.Call) and _callee_name(c) == 'is_less_than_day' and c.args and isinstance(c.args[0], ast.Name):
+            unitish.add(c.args[0].id)
+    cands = []
+    for p in timex.value.values:
+        if isinstance(p, ast.FormattedValue):
+            for x in ast.walk(p.value):
+                if isinstance(x, ast.Name) and x.id not in cands and x.id != 'self' and x.id not in unitish:
+                    cands.append(x.id)
+    if len(cands) > 1:
+        in_value = {x.id for x in ast.walk(value_stmt.value) if isinstance(x, ast.Name)}
+        both = [c for c in cands if c in in_value]
+        if len(both) == 1:
+            cands = both
+    return cands[0] if len(cands) == 1 else None
+
+
+def assembly_locals(fn, cls=None, idx=None):
+    """(spelling local, number local, index of the unit_map guard, index of the last statement of the assembly) of a parse
+    method that assembles the duration result itself or hands it to a same-class helper (`return self.h(result, num, ...)`)"""
     guard_i = sp = None
     for i, st in enumerate(fn.body):
         if isinstance(st, ast.If) and isinstance(st.test, ast.Compare) and len(st.test.ops) == 1 and isinstance(st.test.ops[0], ast.NotIn) \
                 and isinstance(st.test.left, ast.Name) and ast.unparse(st.test.comparators[0]).endswith('config.unit_map') \
                 and any(isinstance(b, ast.Return) for b in st.body):
             guard_i, sp = i, st.test.left.id
-    val_i = None
-    timex = None
+    if guard_i is None:
+        return None
+    # direct assembly
+    val_i = timex = None
     for i, st in enumerate(fn.body):
         if isinstance(st, ast.Assign) and isinstance(st.targets[0], ast.Attribute):
             if st.targets[0].attr == 'future_value':
                 val_i = i
             if st.targets[0].attr == 'timex' and isinstance(st.value, ast.JoinedStr):
                 timex = st
-    if guard_i is None or val_i is None or timex is None or val_i < guard_i:
-        return None
-    defs = {}
-    for n in ast.walk(fn):
-        t = n.targets[0] if isinstance(n, ast.Assign) and len(n.targets) == 1 else (n.target if isinstance(n, ast.AnnAssign) and n.value is not None else None)
-        if isinstance(t, ast.Name):
-            defs.setdefault(t.id, []).append(n.value)
-    cands = []
-    for p in timex.value.values:
-        if isinstance(p, ast.FormattedValue):
-            for x in ast.walk(p.value):
-                if isinstance(x, ast.Name) and x.id not in cands and x.id != 'self':
-                    txts = [ast.unparse(v) for v in defs.get(x.id, [])]
-                    if any('unit_map' in t or 'is_less_than_day' in t for t in txts) or any(isinstance(v, ast.IfExp) for v in defs.get(x.id, [])):
-                        continue
-                    # locals derived from a unit local (letter = unit[0]) are unit locals too
-                    if any(isinstance(v, ast.Subscript) and isinstance(v.value, ast.Name) and any(
-                            'unit_map' in ast.unparse(d) for d in defs.get(v.value.id, [])) for v in defs.get(x.id, [])):
-                        continue
-                    cands.append(x.id)
-    if len(cands) > 1:
-        # the number is the local that also scales the seconds value
-        in_value = {x.id for x in ast.walk(fn.body[val_i].value) if isinstance(x, ast.Name)}
-        both = [c for c in cands if c in in_value]
-        if len(both) == 1:
-            cands = both
-    num = cands[0] if len(cands) == 1 else None
-    return sp, num, guard_i, val_i
+    if val_i is not None and timex is not None and val_i > guard_i:
+        return sp, _number_name(fn, timex, fn.body[val_i]), guard_i, val_i
+    # delegation to a same-class helper
+    if cls is not None and idx is not None:
+        for i, st in enumerate(fn.body):
+            if i <= guard_i:
+                continue
+            call = st.value if isinstance(st, (ast.Return, ast.Expr, ast.Assign)) else None
+            if isinstance(call, ast.Call) and isinstance(call.func, ast.Attribute) and _is_name(call.func.value, 'self'):
+                k, h = idx.find_method(cls, call.func.attr)
+                ha = _has_assembly(h) if h is not None else None
+                if ha:
+                    hnum = _number_name(h, ha[0], ha[1])
+                    params = [a.arg for a in h.args.args if a.arg != 'self']
+                    bound = dict(zip(params, call.args))
+                    bound.update({kw.arg: kw.value for kw in call.keywords if kw.arg})
+                    arg = bound.get(hnum)
+                    return sp, (arg.id if isinstance(arg, ast.Name) else None), guard_i, i
+    return None
 
 
 def assembly_semantic(idx, cls, fn, consts, codes):
     """interpret the statements between the unit_map guard and the value assignment for every unit code and N in (3, 7):
     [(code, N, timex, value, problem or None)]"""
-    loc = assembly_locals(fn)
+    loc = assembly_locals(fn, cls, idx)
     if loc is None or loc[0] is None:
         raise AnalysisError('%s.%s: unit_map guard / TIMEX / value assignment of the assembly not found' % (cls.name, fn.name))
     sp, num, gi, vi = loc
@@ -718,14 +776,18 @@ def assembly_semantic(idx, cls, fn, consts, codes):
                         return {'<spelling>': secs}
                 raise Undetermined('attribute %s' % ast.unparse(node)[:40])
             ev = MiniEval(idx, cls, res)
-            env = {sp: '<spelling>', num: N, 'result': '<result>'}
+            rec = Obj()
+            env = {sp: '<spelling>', num: N, 'result': rec}
             problem = None
-            for st in fn.body[gi + 1:vi + 1]:
-                is_out = isinstance(st, ast.Assign) and isinstance(st.targets[0], ast.Attribute) and st.targets[0].attr in ('timex', 'future_value')
+            for j, st in enumerate(fn.body[gi + 1:vi + 1]):
+                last = (gi + 1 + j == vi)
+                is_out = last or (isinstance(st, ast.Assign) and isinstance(st.targets[0], ast.Attribute)
+                                  and st.targets[0].attr in ('timex', 'future_value'))
                 try:
                     ev.block([st], env)
                 except _ReturnSignal:
-                    problem = 'returns without a result'
+                    if not last:
+                        problem = 'returns without a result'
                     break
                 except Undetermined as e:
                     if is_out:
@@ -737,7 +799,7 @@ def assembly_semantic(idx, cls, fn, consts, codes):
                     if any(isinstance(x, ast.Return) for x in ast.walk(st)):
                         raise AnalysisError('%s.%s: guard cannot be interpreted (%s): %s' % (cls.name, fn.name, e, ast.unparse(st)[:70]))
                     continue
-            out.append((code, N, env.get('result.timex'), env.get('result.future_value'), problem))
+            out.append((code, N, getattr(rec, 'timex', None), getattr(rec, 'future_value', None), problem))
     return out
 
 
@@ -955,9 +1017,13 @@ def run_base(chk, idx, consts):
     itd = dpu.methods.get('is_time_duration_unit')
     if itd is None:
         raise AnalysisError('anchor vanished: DurationParsingUtil.is_time_duration_unit')
-    copies = assembly_copies(bd, consts)
+    copies = []
+    for name, fn_ in bd.methods.items():
+        loc_ = assembly_locals(fn_, bd, idx)
+        if loc_ is not None:
+            copies.append((name, None, fn_.body[loc_[3]].lineno))
     if len(copies) < 4:
-        raise AnalysisError('BaseDurationParser: only %d TIMEX assemblies found (expected 5)' % len(copies))
+        raise AnalysisError('BaseDurationParser: only %d parse methods reach a TIMEX assembly (expected 5)' % len(copies))
     for L, want in DESIGNATOR.items():
         try:
             t1 = bool(MiniEval(idx, bd, res).call(ilt, [L]))
@@ -989,13 +1055,6 @@ def run_base(chk, idx, consts):
                   '%d (unit code, N) cases: P[T]N<first letter>, N x seconds' % len(rows) if not wrong else '; '.join(wrong[:4]),
                   "%s: the TIMEX/seconds assembly is wrong for %s (%d of %d interpreted cases) - 'T' iff the unit is shorter than a day, "
                   "suffix = first letter of the unit code, value = N x UnitValueMap" % (cons, '; '.join(wrong[:3]), len(wrong), len(rows)), ln)
-        # the textual normal form is kept as evidence only
-        sp = form['spelling']
-        if sp is not None:
-            ref = reference_form(sp)
-            diffs = [k for k in ('timex', 'value', 'past', 'guard') if form[k] != ref[k]]
-            if diffs:
-                chk.observe('%s: assembly is written differently from its siblings (%s); decided by interpretation' % (cons, ', '.join(diffs)))
     ctl = _FakeCls(ast.parse(_ASSEMBLY_CONTROL).body[0])
     crow = assembly_semantic(idx, bd, ctl.methods['parse_x'], consts, [('MON', SEC['MON'])])
     chk.control('C10.assembly', any(r[4] or r[3] != r[1] * SEC['MON'] for r in crow))
@@ -1004,9 +1063,7 @@ def run_base(chk, idx, consts):
     plain = 0
     for name, form, ln in copies:
         fn = bd.methods[name]
-        timex_as = [n for n in ast.walk(fn) if isinstance(n, ast.Assign) and isinstance(n.targets[0], ast.Attribute)
-                    and n.targets[0].attr == 'timex' and isinstance(n.value, ast.JoinedStr)][0]
-        loc = assembly_locals(fn)
+        loc = assembly_locals(fn, bd, idx)
         num_name, sp = (loc[1], loc[0]) if loc else (None, None)
         cons = 'BaseDurationParser.%s' % name
         if num_name is None or sp is None:
